@@ -372,6 +372,20 @@ static std::vector<Val> values_for(ares_dns_rr_key_t key)
       SV("label63", std::string(63, 'x') + ".com");
       SV("max255", std::string(63, 'a') + "." + std::string(63, 'b') + "." + std::string(63, 'c') + "." + std::string(61, 'd'));
       SV("max255-escaped", std::string(63, 'a') + "." + std::string(63, 'b') + "." + std::string(63, 'c') + "." + std::string(60, 'd') + "\\001");
+      {
+        // every octet written as \DDD: the presentation form is four times the wire size. 250 data octets in four
+        // labels (= 255 on the wire) take 1003 characters; the shorter ones sit on both sides of 255 and 511 characters
+        auto esc = [](size_t n) {
+          std::string r;
+          for (size_t i = 0; i < n; i++) r += "\\001";
+          return r;
+        };
+        SV("escaped-pres300", esc(40) + "." + esc(34));
+        SV("escaped-pres510", esc(63) + "." + esc(63) + "." + esc(1));
+        SV("escaped-pres671", esc(63) + "." + esc(63) + "." + esc(1) + "." + esc(40));
+        SV("escaped-max255", esc(63) + "." + esc(63) + "." + esc(63) + "." + esc(61));
+        SV("escaped-over255", esc(63) + "." + esc(63) + "." + esc(63) + "." + esc(62));
+      }
       SV("label64", std::string(64, 'x') + ".com");
       SV("empty-label", "a..b");
       SV("bad-escape", "a\\25");
